@@ -37,6 +37,8 @@ var repairs = []repair{
 	{"A", "list-add-appends-in-place", false, false, func(o *PrintOpts) { o.AddCopy = true }, func(f *features) bool { return f.adds > 0 || f.augs > 0 }},
 	{"S", "slice-shares-backing-array", false, false, func(o *PrintOpts) { o.SliceCopy = true }, func(f *features) bool { return f.slices > 0 }},
 	{"SR", "sorted-reversed-in-place", false, false, func(o *PrintOpts) { o.SortCopy = true }, func(f *features) bool { return f.sorts > 0 }},
+	{"ST", "sorted-tie-order", false, false, func(o *PrintOpts) { o.StableSort = true }, func(f *features) bool { return f.keySorts > 0 && f.maxLit <= 12 }},
+	{"STL", "sorted-not-stable-beyond-12", false, false, func(o *PrintOpts) { o.StableSort = true }, func(f *features) bool { return f.keySorts > 0 && f.maxLit > 12 }},
 	{"K", "constant-list-literal-shared", false, false, func(o *PrintOpts) { o.ConstFresh = true }, func(f *features) bool { return f.constLists > 0 }},
 	{"R", "augassign-rebinds-list", true, false, func(o *PrintOpts) { o.AugRebind = true }, func(f *features) bool { return f.augs > 0 || f.appends > 0 }},
 	{"U", "str-case-mapping-single-rune", false, true, func(o *PrintOpts) { o.FoldCase = true }, func(f *features) bool { return f.sharpS && f.caseCalls > 0 }},
@@ -358,6 +360,16 @@ func MainC16() {
 	for i := 0; i < r.N(600, 10000); i++ {
 		g := NewG(r.Rng)
 		h.program("program", g.Program(), "bd", true)
+	}
+	// sorted(key=…, reverse=…) over lists with tied keys; beyond 12 elements sort.Slice is not stable and the model does
+	// not follow it (oracle only)
+	for i := 0; i < r.N(300, 3000); i++ {
+		g := NewG(r.Rng)
+		h.program("sorted-key", g.SortedKeyProgram(false), "bd", true)
+	}
+	for i := 0; i < r.N(40, 500); i++ {
+		g := NewG(r.Rng)
+		h.program("sorted-key-long", g.SortedKeyProgram(true), "bd", false)
 	}
 	// 3. outside the modelled core: non-ASCII text (oracle only)
 	for i := 0; i < r.N(100, 2500); i++ {
